@@ -9,6 +9,12 @@ Line format of harness/cmd/c14 (see the head of its main.go):
 Model (ocaml/c14_driver.ml): range/rr the same canonical string; rack per topic
   thex=alt/alt/...;thex=~alt   with alt = mid:p,p+mid:p  (the per-topic projection), one alt per
   pair of zone iteration orders; "~" = orders not enumerated.
+Leader path, ops lrange / lrr / lrack: <partitions> is the CLUSTER held by a fake broker; the real
+  ConsumerGroup.assignTopicPartitions (kafka.VerifAssignTopicPartitions) asks it for extractTopics(members).
+  go result  = "<canonical as range/rr (no perm) | rack runs joined by '/'> req=<requested topics hex,hex | ->"
+               (+ " calls=N" if the broker was not asked exactly once; ERR:<msg> / PANIC instead of <canonical>)
+  model      = "<as range/rr/rack on leader_partitions> req=<extract_topics>"
+  The predicates judge the output against the CLUSTER, not against what was requested.
 """
 import hashlib, json, os, subprocess
 import checklib as L
@@ -16,6 +22,7 @@ import checklib as L
 TRUSTED_BASE = [
     "Coq 8.16.1 kernel (coqc; coqchk in the thorough tier); vm_compute used only in non-vacuity Examples; no native_compute",
     "hand-written model coq/Model/GroupBalancers.v of /repo/groupbalancer.go, tied by the differential run of harness/cmd/c14 (real AssignGroups, build tag verif) against the OCaml extraction (ExtrOcamlBasic only: bool/option/unit/list/prod/sumbool mapped; nat, positive, N, Z kept as Coq datatypes)",
+    "leader path: extract_topics / read_partitions / leader_* of the same model file mirror extractTopics (reader.go) and the success path of ConsumerGroup.assignTopicPartitions; the real function is driven through /repo/verif_export_c14.go (coordinator seam: only readPartitions is replaced, by a fake broker in harness/cmd/c14 that records the requested topics and returns the cluster's partitions of exactly those topics); the broker answering UnknownTopicOrPartition is not part of the default run (harness flag -unknown)",
     "sort.Slice in findMembersByTopic is modelled as an insertion sort by member id; the two agree when ids are distinct (compared on every run, not verified)",
     "Go map iteration order: never used by the Range/RoundRobin model (association lists in insertion order, results canonicalised before comparison); the two 'range zonedPartitions' loops of RackAffinity.assignTopic take their iteration orders as explicit parameters of the model, and the differential accepts a Go result iff it is the model's result for SOME pair of orders (all pairs enumerated when a topic has <= 3 leader racks, <= 4 for small topics)",
     "Go slice semantics: s[:k] with k > len(s) is the model outcome None (the real code panics beyond cap and reads stale elements below it); append never aliases because every appended-to slice is owned by one map entry",
@@ -67,8 +74,8 @@ class Group:
 
 
 def parse_assign(s):
-    """canonical GroupMemberAssignments -> {mid: {topic: [ints]}}; None for PANIC."""
-    if s == "PANIC":
+    """canonical GroupMemberAssignments -> {mid: {topic: [ints]}}; None for PANIC / ERR:..."""
+    if s == "PANIC" or s.startswith("ERR:"):
         return None
     a = {}
     if s == "-":
@@ -110,9 +117,19 @@ def parse_rack_model(s):
 
 # ----------------------------------------------------------------------------- the property on an output
 
-def violations(op, G, asg):
+def req_violations(G, req):
+    """leader ops: the broker must be asked once, for the sorted set of all subscribed topics."""
+    want = ",".join(sorted(G.subs, key=hx)) or "-"
+    if req != want:
+        return [("req", f"the leader asked the broker for topics [{req}], the members subscribe to [{want}]")]
+    return []
+
+
+def violations(op, G, asg, raw="", listed_word="listed"):
     """C14's predicates on one output of the implementation: [(kind, text)]."""
     if asg is None:
+        if raw.startswith("ERR:"):
+            return [("error", "assignTopicPartitions failed: " + raw[:200])]
         return [("panic", "AssignGroups panicked")]
     v = []
     subs, listed = G.subs, G.listed
@@ -129,7 +146,7 @@ def violations(op, G, asg):
         got = sorted(p for tm in asg.values() for p in tm.get(t, ()))
         exp = sorted(p for p, _ in listed.get(t, ())) if subs.get(t) else []
         if got != exp:
-            v.append(("multiset", f"topic {t}: assigned partitions {got} are not exactly the listed partitions {exp}"))
+            v.append(("multiset", f"topic {t}: assigned partitions {got} are not exactly the {listed_word} partitions {exp}"))
     for t, sl in subs.items():
         parts = [p for p, _ in listed.get(t, ())]
         P, M = len(parts), len(sl)
@@ -171,6 +188,7 @@ def evaluate(cases, res, st):
         st["nfail"] += 1
         if len(fails) >= MAXFAIL:
             return
+        model = res.get(c["id"])   # the driver's whole line (leader ops: including req=)
         f = dict(layer=layer, what=f"{c['op']}: {what}"[:400], key=f"C14:{c['op']}:{kind}",
                  detail=json.dumps(dict(case=c["line"][:2000], go=c["go"][:600], model=str(model)[:600])))
         f["input"] = dict(case=c["line"], go=c["go"], model=model) if with_input else None
@@ -192,13 +210,27 @@ def evaluate(cases, res, st):
                  if model == "MODELINCONSISTENT" else f"model driver gave {model}", model, False)
             continue
         reported = False
-        if op in ("range", "rr"):
-            go, _, perm = c["go"].rpartition(" ")
+        leader = op in ("lrange", "lrr", "lrack")
+        base = op[1:] if leader else op
+        gores, req_vs, req_agree = c["go"], [], True
+        if leader:
+            gores, _, req = c["go"].partition(" req=")
+            model, _, mreq = model.partition(" req=")
+            req_vs = req_violations(G, req)
+            req_agree = req == mreq
+            st["leader_cases"] += 1
+            if "new-after-seen" in c["feats"].split(","):
+                st["leader_new_after_seen"] += 1
+        if base in ("range", "rr"):
+            if leader:
+                go, perm = gores, "perm=same"
+            else:
+                go, _, perm = gores.rpartition(" ")
             asg = parse_assign(go)
-            vs = violations(op, G, asg)
+            vs = violations(base, G, asg, go, "cluster's" if leader else "listed") + req_vs
             if perm != "perm=same":
                 vs.append(("perm", "result depends on the listing order of members/topics (same group shuffled gave another assignment)"))
-            if go != model:
+            if go != model or not req_agree:
                 reported = True
                 if vs:
                     fail(c, "property", vs[0][0], vs[0][1], model)
@@ -207,7 +239,7 @@ def evaluate(cases, res, st):
                          + ("" if asg is None or member_keys_ok(G, asg) else " (member keys differ)"), model, False)
             if vs and not reported:
                 fail(c, "property", vs[0][0], vs[0][1], model)
-        elif op == "rack":
+        elif base == "rack":
             alts = parse_rack_model(model)
             model_panics = any("PANIC" in a for _, a in alts.values())
             if model_panics:
@@ -218,17 +250,17 @@ def evaluate(cases, res, st):
                     st["rack_alts_max"] = max(st["rack_alts_max"], len(a))
                     if len(a) > 1:
                         st["rack_topics_multi_alt"] += 1
-            runs = c["go"].split("/")
+            runs = gores.split("/")
             if len(runs) > 1:
                 st["rack_go_multi"] += 1
             for R in runs:
                 st["rack_go_results"] += 1
                 asg = parse_assign(R)
-                vs = violations(op, G, asg)
+                vs = violations(base, G, asg, R, "cluster's" if leader else "listed") + req_vs
                 if asg is None:
-                    agree = model_panics
+                    agree = model_panics and req_agree
                 else:
-                    agree = all(t in alts for tm in asg.values() for t in tm)
+                    agree = req_agree and all(t in alts for tm in asg.values() for t in tm)
                     for t, (enum, a) in alts.items():
                         if enum and project(asg, t) not in a:
                             agree = False
@@ -259,7 +291,7 @@ def evaluate(cases, res, st):
 def new_state():
     return dict(failures=[], nfail=0, evaluations=0, hist={}, seen=set(), exhaustive_cases=0, outside_hypothesis=0,
                 rack_topics_enum=0, rack_topics_noenum=0, rack_topics_multi_alt=0, rack_alts_max=0,
-                rack_go_multi=0, rack_go_results=0, rack_model_panic=0)
+                rack_go_multi=0, rack_go_results=0, rack_model_panic=0, leader_cases=0, leader_new_after_seen=0)
 
 
 def _work(job):
@@ -362,7 +394,8 @@ def correspondence(ctx):
     if st["outside_hypothesis"]:
         notes.append(f"{st['outside_hypothesis']} corpus cases skipped: duplicate member ids or topics (outside C14's hypotheses)")
     extra = {k: st[k] for k in ("exhaustive_cases", "rack_topics_enum", "rack_topics_noenum", "rack_topics_multi_alt",
-                                "rack_alts_max", "rack_go_results", "rack_go_multi", "rack_model_panic")}
+                                "rack_alts_max", "rack_go_results", "rack_go_multi", "rack_model_panic",
+                                "leader_cases", "leader_new_after_seen")}
     extra["exhaustive_scope"] = (
         "range/rr: all listing orders of <=%d members (ids '', m, m1, m10) x subscriptions over 2 topics (4^M, members without topics included) "
         "x 0..%d / 0..%d partitions of the two topics; rack one topic: %s; rack two topics (each member a non-empty subset): %s"
@@ -370,11 +403,17 @@ def correspondence(ctx):
             "<=2 members x 0..2 partitions each x 2 racks") if scope == 1 else
            (4, 6, 3, "<=4 members x 0..6 partitions x 3 racks ('', a, b), racks of members and leaders in all ways",
             "<=3 members x 0..3 partitions each x 2 racks")))
+    extra["exhaustive_scope"] += (
+        "; leader path (lrange, lrr, lrack each): <=3 members, every member's topic list any duplicate-free ordered list over 3 topics "
+        "(16 lists incl. the empty one, 16^M groups) x %d small clusters (0..2 partitions per topic, with and without a topic nobody subscribes to)"
+        % (2 if scope == 1 else 9))
     return dict(evaluations=st["evaluations"], distinct_nontrivial=len(st["seen"]), hist=st["hist"],
                 rule="random groups from one PRNG (VERIF_SEED): 1..8 members (10%: 9..60), distinct ids with shared prefixes / empty id / "
                      "high bytes in unsorted listing order, 1..3 topics with full, partial, empty and ghost subscriptions, 0..20 (large: 0..300) "
                      "partitions per topic with contiguous, permuted or sparse ids, topics interleaved, orphan topics, 1..5 racks incl. the empty "
-                     "rack, racks without members / without leaders; plus the small-scope enumeration (extra.exhaustive_scope). Each case runs the "
+                     "rack, racks without members / without leaders; the same groups (more topics, mostly heterogeneous overlapping subscriptions in "
+                     "shuffled order, topics missing from / extra in the cluster) through the leader path assignTopicPartitions against a fake broker "
+                     "that serves only the requested topics; plus the small-scope enumeration (extra.exhaustive_scope). Each case runs the "
                      "real AssignGroups (range/rr also on shuffled listings, rack 8 times), is compared with the extracted model (exact for "
                      "range/rr, membership among the results over all zone iteration orders for rack) and every output is checked against the "
                      "property's predicates. A case is non-trivial unless its features are the happy path (one topic, everybody subscribed, "
